@@ -19,6 +19,16 @@ CHECKS = {
               "most-specific encoder for every documented runtime type incl. subclasses; hooks are effect-free (ast summaries); "
               "scalar results JSON-safe; dump model tied to the code by type-exact correspondence incl. aliasing / side-effect monitors"),
         technique='Lean 4 proof over generated tables + hand model + differential correspondence', ref='4 C03'),
+    'C04': dict(
+        text=("Lean theorems: truthy table = documented set (regenerated from source), bool/int/str/datetime/Enum coercion "
+              "laws incl. a proof that the int-of-float rule is round-half-even of the exact value, element-wise lifting; model tied to "
+              "the code by a spelling-table x nesting-context correspondence; ref_coerce oracle transcribed from docs/overview.rst"),
+        technique='Lean 4 proof over a hand model + generated table + differential correspondence', ref='4 C04'),
+    'C05': dict(
+        text=("Lean theorems: soundness of every scalar loader for all JSON inputs (nan/inf/huge/junk/containers), no load hook writes "
+              "its arguments (ast effect summaries), witnesses of the two recorded findings and of the repaired Union defect; model tied "
+              "to the code on a malformed + near-miss stream; conforms()/input-mutation oracle"),
+        technique='Lean 4 proof over a hand model + effect summaries + differential correspondence', ref='4 C05'),
     'C08': dict(
         text=("Lean theorems about the model of string_conv / object_path (casing round trips for canonical snake names, "
               "tokenizer facts), model tied to the code by exhaustive small-alphabet correspondence plus end-to-end alias/path checks"),
